@@ -180,7 +180,9 @@ impl Service {
             };
             let pw = |rng: &mut Rng| match rng.below(12) {
                 0 => format!("pw{c}xé{}", rng.below(2)),
-                1 => format!("pw{c}x{}", "long".repeat(20)),
+                // longer than any truncating hash input (bcrypt's 72 bytes ...), two of them with
+                // a common 84-byte prefix
+                1 => format!("pw{c}x{}{}", "long".repeat(20), rng.below(2)),
                 _ => format!("pw{c}x{}", rng.below(2)),
             };
             let len = rng.range(3, if thorough { 12 } else { 9 }) as usize;
@@ -372,7 +374,19 @@ impl Service {
             clients.push(script);
         }
         let stall = if rng.chance(1, 4) { Some(rng.below(nclients as u64) as usize) } else { None };
-        SrvCase { clients, faults, jumps, small_names: false, restarts: rng.chance(1, 5), stall }
+        let restarts = rng.chance(1, 5);
+        // drawn last (every other draw is what it was before this existed): one world in four
+        // has a client change its account name / password - or, for a temporary user, register -
+        // somewhere after its first add, possibly while a task of its is in flight
+        let mut clients = clients;
+        if rng.chance(1, 4) {
+            let c = rng.below(nclients as u64) as usize;
+            let first_add = clients[c].iter().position(|r| matches!(r, Rq::Add { .. })).unwrap_or(0);
+            let at = rng.range(first_add as u64 + 1, clients[c].len() as u64) as usize;
+            let name = format!("c{c}{}", ["a", "b"][rng.below(2) as usize]);
+            clients[c].insert(at, Rq::Update { name, pw: format!("pw{c}x{}", rng.below(2)) });
+        }
+        SrvCase { clients, faults, jumps, small_names: false, restarts, stall }
     }
 }
 
@@ -887,7 +901,7 @@ impl<'a> Run<'a> {
                                 self.viol_client(c, v);
                             }
                             let exact = self.cl[c].exact && !self.case.faults;
-                            if let Some(v) = self.o16.on_get(c, pname, &j, &tasks, self.svc_cfg.property == "C16", exact) {
+                            if let Some(v) = self.o16.on_get(c, &acct, pname, &j, &tasks, self.svc_cfg.property == "C16", exact) {
                                 self.viol(v);
                             }
                         }
@@ -1470,11 +1484,11 @@ async fn final_phase(run: &mut Run<'_>) {
                         let tasks = run.w.tasks.clone();
                         let judge = run.svc_cfg.property == "C16";
                         let exact = run.cl[cc].exact && !run.case.faults;
-                        if let Some(v) = run.o16.on_get(cc, &pname, &j, &tasks, judge, exact) {
+                        if let Some(v) = run.o16.on_get(cc, &acct, &pname, &j, &tasks, judge, exact) {
                             run.viol(v);
                         }
                         if judge {
-                            if let Some(v) = run.o16.final_liveness(cc, &pname, &j, &run.solves_acked, &tasks, run.case.faults) {
+                            if let Some(v) = run.o16.final_liveness(cc, &acct, &pname, &j, &run.solves_acked, &tasks, run.case.faults) {
                                 run.viol(v);
                             }
                         }
